@@ -9,7 +9,9 @@ from ..runner import Divergence, Driver, Env, Outcome, Violation, diff_streams
 
 THEOREMS = ["C09_empty_expected", "C09_complete_iff", "C09_complete_ordered", "C09_complete_perm", "C09_pending_add",
             "C09_dropped_iff_surplus", "C09_reducer_fresh_add", "C09_reducer_stale_rerun", "C09_reducer_stale_rerun_all_buffers", "C09_stale_rerun_tick", "C09_reducer_rerun_skips", "C09_reducer_delete",
-            "C09_drain_keeps_buffers", "C09_single_flight_partition", "C09_single_flight_once", "C09_refuted_double_count"]
+            "C09_drain_keeps_buffers", "C09_single_flight_partition", "C09_single_flight_once", "C09_refuted_double_count",
+            "C09_complete_only_received", "C09_conc_single_flight_refines", "C09_conc_lists_ordered_received", "C09_conc_trigger_in_one_list",
+            "C09_conc_no_double_buffering", "C09_refuted_conc_buffer_invariant", "C09_refuted_conc_none_lost"]
 EXPLANATION = (
     "Lean: collectEvents (model of InternalContext.collect_events) returns a list iff buffer+event has exactly the expected "
     "multiset of types (under the buffer invariant, which pending adds preserve), ordered as `expected`, a permutation of "
@@ -224,6 +226,10 @@ def run(env: Env) -> Outcome:
     # the corpus (hand-picked sequences, the witnesses of the open findings) and a replayed live case run first
     suite.live_runs(env, out, 0, [monitors.mon_c09], extra_specs=suite.load_corpus("C09"))
     _ce_corr(env, out, env.budget(4000, 80000))
+    # any number of invocations in flight: generated schedules through the real reducer + collect_events vs. the concurrent
+    # histories of WfModel/CollectConc.lean (op C09CH); the Lean witness C09.concWitness runs first
+    from ..engine import c09x
+    c09x.conc_corr(env, out, env.budget(1200, 24000), replay_case=case["conc"] if isinstance(case, dict) and "conc" in case else None)
     _cr_corr(env, out, env.budget(1500, 30000))
     suite.direct_corr(env, out, env.budget(1500, 30000), gen_kwargs={"span_snapshots": True}, pair_monitor=monitors.c09_rerun_check)
     suite.live_runs(env, out, env.budget(60, 1200), [monitors.mon_c09])
